@@ -54,3 +54,17 @@ V("C04", "fixt_growth_unclipped", "violation", (TDS, "                if config.
 V("C04", "reject_no_rewind", "violation", (TDS, "                dae.t -= self.h\n                self.calc_h()", "                self.calc_h()"), rule="C04.restore")
 V("C04", "scale_mismatch", "violation", (DAEINT, "tds.qg[dae.n:] = tds.config.g_scale * tds.h * dae.g", "tds.qg[dae.n:] = tds.config.g_scale * dae.g"), rule="C04.scale")
 V("C04", "benign_theta_rewrite", "silent", (DAEINT, "return Tf * (x - x0) - h * 0.5 * (f + f0)", "return Tf * (x - x0) - 0.5 * h * f - 0.5 * h * f0"))
+
+# ---------------- C08
+EIG = "andes/routines/eig.py"
+V("C08", "neg_count_overlaps", "violation", (EIG, "np.count_nonzero(mu_real < -self.config.tol)", "np.count_nonzero(mu_real < self.config.tol)"), rule="C08.partition")
+V("C08", "zero_band_strict", "violation", (EIG, "np.count_nonzero(abs(mu_real) <= self.config.tol)", "np.count_nonzero(abs(mu_real) < self.config.tol)"), rule="C08.partition")
+V("C08", "reduce_sign", "violation", (EIG, "self.fxy = (fx - fy * self.gyx)", "self.fxy = (fx + fy * self.gyx)"), rule="C08.formula")
+V("C08", "reduce_order", "violation", (EIG, "self.fxy = (fx - fy * self.gyx)", "self.fxy = (fx - self.gyx * fy)"), rule="C08.formula")
+V("C08", "reduce_wrong_solve", "violation", (EIG, "        self.gyx = matrix(gx)\n        self.solver.linsolve(gy, self.gyx)", "        self.gyx = matrix(gy)\n        self.solver.linsolve(gx, self.gyx)"), rule="C08.formula")
+V("C08", "pfactor_axis", "violation", (EIG, "pfactor[item, :] /= W_abs[item]", "pfactor[:, item] /= W_abs[item]"), rule="C08.axes")
+V("C08", "pfactor_no_transpose", "violation", (EIG, "        pfactor = pfactor.T\n", ""), rule="C08.axes")
+V("C08", "double_scaling", "violation", (EIG, "nTf = np.ones(self.nz_counts)", "nTf = np.delete(self.system.dae.Tf, self.zstate_idx)"), rule="C08.scaling")
+V("C08", "reorder_no_advance", "violation", (EIG, "                swaps.append((ii, bidx))\n                bidx += 1\n", "                swaps.append((ii, bidx))\n"), rule="C08.reorder")
+V("C08", "benign_pfactor_rename", "silent", (EIG, "        for item in range(n_state):\n            pfactor[item, :] /= W_abs[item]", "        for k in range(n_state):\n            pfactor[k, :] /= W_abs[k]"))
+V("C08", "benign_reduce_commuted_sum", "silent", (EIG, "self.fxy = (fx - fy * self.gyx)", "self.fxy = (-(fy * self.gyx) + fx)"))
